@@ -348,6 +348,7 @@ impl Check for C08 {
         let mode = if is_array { 0 } else { e.below(6) };
         let cfg = TypeCfg::default();
         let sc = Scope::empty();
+        let mut region: Option<&'static str> = None;
         let (bytes, wire_desc, relation, nondefault): (Vec<u8>, String, &'static str, bool) = match mode {
             0 | 1 => {
                 // T's own value through candid's encoder
@@ -372,7 +373,8 @@ impl Check for C08 {
                 // Regions of the open findings are not skipped: there the judge tolerates
                 // exactly the recorded direction (by signature, counted) and still reports
                 // the opposite one (native accepting what the generic path rejects).
-                if let Some(r) = known_region(&env, &ty, &wire_ty, tags.contains(&"map"), 0) {
+                region = known_region(&env, &ty, &wire_ty, tags.contains(&"map"), 0);
+                if let Some(r) = region {
                     ctx.class(r.trim_start_matches("excluded-known:"));
                 }
                 let mut b = Builder::new(&env);
@@ -394,7 +396,7 @@ impl Check for C08 {
                 (bytes, format!("{} : {}", show(&val), emit_ty(&wire_ty)), relation, true)
             }
         };
-        judge(ops, &bytes, &wire_desc, relation, nondefault, ctx)
+        judge_in(ops, &bytes, &wire_desc, relation, nondefault, region, ctx)
     }
     /// Direct cases: JSON {"type": corpus type name, "bytes": hex}
     fn direct_case(&self, data: &[u8], ctx: &mut Ctx) -> Outcome {
@@ -416,6 +418,15 @@ impl Check for C08 {
 }
 
 fn judge(ops: &dyn TypeOps, bytes: &[u8], wire_desc: &str, relation: &'static str, nondefault: bool, ctx: &mut Ctx) -> Outcome {
+    judge_in(ops, bytes, wire_desc, relation, nondefault, None, ctx)
+}
+
+/// `region`: the wire type lies in the region of an open finding (native tuple/map
+/// decoding needs exactly that wire shape). There the native side is known to
+/// reject - or, below an option, to answer null - where the generic path accepts;
+/// that direction is reported under the finding's signature. The opposite direction
+/// (native accepting what the generic path rejects) is judged as everywhere else.
+fn judge_in(ops: &dyn TypeOps, bytes: &[u8], wire_desc: &str, relation: &'static str, nondefault: bool, region: Option<&'static str>, ctx: &mut Ctx) -> Outcome {
     let tags = ops.tags();
     let unordered = tags.iter().any(|t| matches!(*t, "map" | "set" | "hash"));
     let (_env, ty, cenv, cty) = match corpus_ty(ops) {
@@ -478,6 +489,17 @@ fn judge(ops: &dyn TypeOps, bytes: &[u8], wire_desc: &str, relation: &'static st
                     return Outcome::Fail(Failure::new(format!("bounded-vec:accepted-beyond-limits:{}", ops.name()), describe()));
                 }
                 let same = if unordered { sort_vecs(&n.wire) == sort_vecs(u) } else { n.wire == *u };
+                if !same && region == Some("excluded-known:C08-tuple-needs-tuple-wire") {
+                    return Outcome::Fail(Failure::new("tuple-native-rejects-wire-record-that-is-not-a-tuple", describe()));
+                }
+                if !same && region == Some("excluded-known:C08-empty-vec-at-blob") {
+                    // below an option the blob path's rejection of an empty vector of another
+                    // element type shows as null on the untyped side
+                    return Outcome::Fail(Failure::new("untyped-blob-path-rejects-empty-vector-that-native-accepts", describe()));
+                }
+                if !same && region == Some("excluded-known:C08-map-needs-exact-pair") {
+                    return Outcome::Fail(Failure::new("map-native-rejects-wire-record-that-is-not-exactly-a-pair", describe()));
+                }
                 if !same {
                     return Outcome::Fail(Failure::new(format!("values-differ:{}", ops.name()), describe()));
                 }
